@@ -11,50 +11,67 @@ open Marwood.Spec.Eval (Val Prim Cell Env evalN evalStep applyStep evalArgs prop
 
 variable {H : Type} {ops : HeapOps H} {D : RepData2 ops}
 
-/-- a body of the fragment is a proper list -/
-theorem F3B_proper {G : Text → Prop} : ∀ {f : Nat} {c : Ctx} {ns us : Text → Prop} {ints : List Text} {bodyD : Datum},
+mutual
+theorem F3B_proper_aux {G : Text → Prop} : ∀ {f : Nat} {c : Ctx} {ns us : Text → Prop} {ints : List Text} {bodyD : Datum},
     F3B G f c ns us ints bodyD → ∃ body, properList bodyD = some body
   | _, _, _, _, _, _, .last x _ _ => ⟨[x], rfl⟩
   | _, _, _, _, _, _, .cons x y rest _ _ h => by
-    obtain ⟨b, hb⟩ := F3B_proper h
+    obtain ⟨b, hb⟩ := F3B_proper_aux h
     exact ⟨x :: b, by
       rw [show properList (.pair x (.pair y rest)) = (properList (.pair y rest)).map (x :: ·) from rfl, hb]; rfl⟩
   | _, _, _, _, _, _, .defv x e y rest ints _ _ _ _ h => by
-    obtain ⟨b, hb⟩ := F3B_proper h
+    obtain ⟨b, hb⟩ := F3B_proper_aux h
     exact ⟨defForm x e :: b, by
       rw [show properList (.pair (defForm x e) (.pair y rest)) = (properList (.pair y rest)).map (defForm x e :: ·)
         from rfl, hb]; rfl⟩
+  | _, _, _, _, _, _, .block _ _ _ _ hK => F3K_proper_aux hK
+theorem F3K_proper_aux {G : Text → Prop} : ∀ {f : Nat} {c : Ctx} {ns us : Text → Prop} {Bs todo ints : List Text}
+    {bodyD : Datum}, F3K G f c ns us Bs todo ints bodyD → ∃ body, properList bodyD = some body
+  | _, _, _, _, _, _, _, _, .defl x formals lbody y rest ints _ _ _ _ h => by
+    obtain ⟨b, hb⟩ := F3K_proper_aux h
+    exact ⟨defForm x (.pair (.sym k_lambda) (.pair formals lbody)) :: b, by
+      rw [show properList (.pair (defForm x (.pair (.sym k_lambda) (.pair formals lbody))) (.pair y rest)) =
+        (properList (.pair y rest)).map (defForm x (.pair (.sym k_lambda) (.pair formals lbody)) :: ·) from rfl, hb]; rfl⟩
+  | _, _, _, _, _, _, _, _, .defc x formals lbody y rest ints _ _ _ _ _ _ _ _ _ _ _ _ _ _ _ _ h => by
+    obtain ⟨b, hb⟩ := F3K_proper_aux h
+    exact ⟨curForm x formals lbody :: b, by
+      rw [show properList (.pair (curForm x formals lbody) (.pair y rest)) =
+        (properList (.pair y rest)).map (curForm x formals lbody :: ·) from rfl, hb]; rfl⟩
+  | _, _, _, _, _, _, _, _, .done _ _ h => F3B_proper_aux h
+end
 
-theorem case3_lambda (L : Laws3 D) {f : Nat} {cst cst' : CState} {c : Ctx} {base : Nat} {tail : Bool}
-    {formals body : Datum} {code : List BC} {ρ : Env} {us : Text → Prop} {p : LambdaParts} {ps : List Text}
-    {rest : Option Text} {ints : List Text} {caps : List (Text × Source)}
-    (hp : lambdaParts f c (.pair (.sym k_lambda) (.pair formals body)) false = .ok p)
-    (hpf : Spec.Eval.parseFormals formals = some (ps, rest)) (hps : p.formals = ps ++ rest.toList)
+/-- a body of the fragment is a proper list -/
+theorem F3B_proper {G : Text → Prop} {f : Nat} {c : Ctx} {ns us : Text → Prop} {ints : List Text} {bodyD : Datum}
+    (h : F3B G f c ns us ints bodyD) : ∃ body, properList bodyD = some body := F3B_proper_aux h
+
+/-- `MOV-IMMEDIATE <lambda> %acc; CLOSURE` for a registered code object, with the demand on the captured locations
+    as a parameter: `P` is what the current environment guarantees of a readable name, `P'` what the closure records
+    of a captured location -/
+theorem closure_core0 (L : Laws3 D) {P : Nat → Nat → Prop} {P' : H → Nat → Nat → Prop}
+    {f : Nat} {cst st1 : CState} {c : Ctx} {body : Datum} {bcode : List BC} {ρ : Env} {us : Text → Prop}
+    {p : LambdaParts} {ps : List Text} {rest : Option Text} {ints : List Text} {caps : List (Text × Source)}
+    {b0 : Datum} {bs0 : List Datum}
+    (hpb : p.body = body) (hpa : p.ctx.args = p.formals)
+    (hpro : p.prologue = (if p.isVararg then [.op .varArg] else []) ++ [.op .enter])
+    (hps : p.formals = ps ++ rest.toList)
     (hva : p.isVararg = rest.isSome) (hnd : (ps ++ rest.toList ++ ints).Nodup)
     (hem : p.ctx.envmap = em3 (ps ++ rest.toList) ints caps)
     (hcaps : ∀ q ∈ caps, q.2 = .iofEnvironment ∧ inEnv c q.1 = true ∧ ¬ us q.1)
     (hfb : F3B D.setG f p.ctx (fun x => x ∈ ps ++ rest.toList ++ ints ∨ bound ρ x) (fun x => x ∈ ints) ints body)
-    (hcomp : compileExpr (f + 1) cst c base tail (.pair (.sym k_lambda) (.pair formals body)) = .ok (cst', code))
-    (hpre : cst'.lambdas <+: D.final) {r : Spec.Eval.Rec} {σ σ' : SSt} {w : Val}
-    (hev : evalStep r (.pair (.sym k_lambda) (.pair formals body)) ρ σ = .ok w σ')
-    {W : World} {s : MSt H} (hc : CodeAt2 D c.envmap s.heap σ.store s.ipL base code) (hip : s.ipO = base)
-    (hi : Inv3 D W s.heap σ) (her : EnvRep3 ops W s.heap c s.ep ρ us) (hw : SWF s.stack) :
-    ∃ W' s', W.le W' ∧ Run3 D W' s code.length σ σ' w s' := by
-  obtain ⟨p', st1, bcode, hp', hcb, hl, rfl⟩ := compile_lambda_inv hcomp
-  rw [hp] at hp'; cases hp'
-  obtain ⟨hpb, hpa, hpro⟩ := lambdaParts_inv hp
-  obtain ⟨bl, hbl⟩ := F3B_proper hfb
-  have hne : bl ≠ [] := F3B_nonempty hfb hbl
-  obtain ⟨b0, bs0, rfl⟩ : ∃ b0 bs0, bl = b0 :: bs0 := by
-    cases bl with
-    | nil => exact absurd rfl hne
-    | cons b0 bs0 => exact ⟨b0, bs0, rfl⟩
-  obtain ⟨rfl, hσ⟩ := evalStep_lambda_inv hpf hbl hev
-  have hσ' := hσ.symm
-  subst hσ'
-  subst hip
-  rw [hl] at hpre
-  obtain ⟨hfin, hpre1⟩ := prefix_get hpre
+    (hbl : properList body = some (b0 :: bs0))
+    (hcb : compileBody f cst p.ctx p.prologue.length p.body = .ok (st1, bcode))
+    (hfin : D.final[st1.lambdas.length]? = some (lamOf p bcode)) (hpre1 : st1.lambdas <+: D.final)
+    {σ : SSt} {W : World} {s : MSt H}
+    (hc : CodeAt2 D c.envmap s.heap σ.store s.ipL s.ipO
+      [.op .movImm, .lambda st1.lambdas.length, .acc, .op .closureAcc])
+    (hsrx : D.SRx s.heap σ.store) (her : EnvRep3g ops W s.heap P c s.ep ρ us)
+    (hPP : ∀ h', Ext3 D s.heap σ.store h' σ.store → ∀ e n, P e n → P' h' e n) :
+    ∃ (h' : H) (pp lam cenv : Nat),
+      Steps ops s { s with heap := h', acc := .ptr pp, ipO := s.ipO + 4 } ∧
+      ops.callee h' (.ptr pp) = .closure lam cenv ∧
+      ClosOK3g D W h' (P' h') lam cenv ps rest (b0 :: bs0) ρ ∧ (∀ k, ops.envGet s.heap cenv k = none) ∧
+      (∀ e k, e ≠ cenv → ops.envGet h' e k = ops.envGet s.heap e k) ∧
+      (∀ m, ops.globGet h' m = ops.globGet s.heap m) ∧ Ext3 D s.heap σ.store h' σ.store ∧ D.SRx h' σ.store := by
   -- the two instructions
   obtain ⟨hf1, hlam⟩ := hc.lambdaCell 1 rfl
   obtain ⟨hisl, hsrcs⟩ := hlam _ hfin
@@ -63,7 +80,7 @@ theorem case3_lambda (L : Laws3 D) {f : Nat} {cst cst' : CState} {c : Ctx} {base
   rw [hemL] at hsrcs
   -- the captured entries are slots of the current environment, and initialised
   have capSlot : ∀ q ∈ caps, ∃ k e n l, slotIdx c.envmap q.1 = some k ∧ rsrc c.envmap q = .iofEnv k ∧
-      Denotes ops s.heap s.ep k e n ∧ ρ.lookup q.1 = some l ∧ W e n l ∧ InitM ops s.heap e n := by
+      Denotes ops s.heap s.ep k e n ∧ ρ.lookup q.1 = some l ∧ W e n l ∧ P e n := by
     intro q hq
     obtain ⟨hq2, hq1, hq3⟩ := hcaps q hq
     obtain ⟨k, hk⟩ := (slotIdx_some_iff_inEnv c q.1).mp hq1
@@ -73,8 +90,8 @@ theorem case3_lambda (L : Laws3 D) {f : Nat} {cst cst' : CState} {c : Ctx} {base
     simp only at hq2 hk
     subst hq2
     simp [rsrc, hk]
-  obtain ⟨h', pp, cenv, hmk, hcallee, hfresh, hslots, hframe, hglob, hext, hsrx, henvok⟩ :=
-    L.closure_ok s.heap σ.store (D.LM st1.lambdas.length) s.ep s.bp s.stack _ hi.extra hisl hsrcs
+  obtain ⟨h', pp, cenv, hmk, hcallee, hfresh, hslots, hframe, hglob, hext, hsrx', henvok⟩ :=
+    L.closure_ok s.heap σ.store (D.LM st1.lambdas.length) s.ep s.bp s.stack _ hsrx hisl hsrcs
       (by
         intro j k hj
         obtain ⟨q, hq, hr⟩ := map_get _ _ _ _ hj
@@ -96,11 +113,11 @@ theorem case3_lambda (L : Laws3 D) {f : Nat} {cst cst' : CState} {c : Ctx} {base
     (by exact hc.1) (by
       have := hc.op 3 (o := .closureAcc) rfl
       exact this) rfl hmk
-  refine ⟨W, _, World.le_refl _, ⟨.cons hs1 (Steps.one hs2), rfl, rfl, rfl, rfl, LiveEq.refl _, hw, ?_, ?_, hext⟩⟩
+  refine ⟨h', pp, D.LM st1.lambdas.length, cenv, .cons hs1 (Steps.one hs2), hcallee, ?_, hfresh, hframe, hglob, hext,
+    hsrx'⟩
   · -- the closure value
-    refine .clos hcallee ?_
     refine ⟨f, cst, st1, c, p, bcode, ints, caps, hps, hva, hpa, hpro, hnd, by rw [hpb]; exact hbl, hcb, hfin, hpre1, rfl,
-      (hext.code _ hisl).1, by rw [hpb]; exact hfb, ?_, hem, fun q hq => (hcaps q hq).1, ?_, ?_, henvok⟩
+      (hext.code _ hisl).1, by rw [hpb]; exact hfb, ?_, hem, fun q hq => (hcaps q hq).1, ?_, ?_, henvok, ?_⟩
     · rw [(hext.code _ hisl).2.2.2, hsrcs, hem]
     · intro j hj
       rw [hem] at hj
@@ -116,14 +133,81 @@ theorem case3_lambda (L : Laws3 D) {f : Nat} {cst cst' : CState} {c : Ctx} {base
       · obtain ⟨k, e, n, l, _, hr', hd, hl', hW, hin⟩ := capSlot _ hqc
         have : ((em3 (ps ++ rest.toList) ints caps).map (rsrc c.envmap))[j]? = some (.iofEnv k) := by
           rw [List.getElem?_map, hx]; simp [hr']
-        refine ⟨e, n, l, ?_, hl', hW, hext.init _ _ hin⟩
+        refine ⟨e, n, l, ?_, hl', hW, hPP h' hext _ _ hin⟩
         rw [hslots j _ this, cloSlot_denotes hd]
-  · -- the invariant
-    refine hi.frame hext hsrx rfl hglob (fun e n l hW => ⟨?_, rfl⟩)
-    obtain ⟨v, _, h1, _⟩ := hi.vars e n l hW
-    have hne : e ≠ cenv := by
-      intro e0; subst e0
-      rw [hfresh n] at h1; cases h1
-    exact hframe e n hne
+    · intro j x hx
+      rw [hem] at hx
+      have : ((em3 (ps ++ rest.toList) ints caps).map (rsrc c.envmap))[j]? = some .internal := by
+        rw [List.getElem?_map, hx]; rfl
+      rw [hslots j _ this]; rfl
+
+/-- … for a `lambda` expression -/
+theorem closure_core (L : Laws3 D) {P : Nat → Nat → Prop} {P' : H → Nat → Nat → Prop}
+    {f : Nat} {cst cst' : CState} {c : Ctx} {base : Nat} {tail : Bool}
+    {formals body : Datum} {code : List BC} {ρ : Env} {us : Text → Prop} {p : LambdaParts} {ps : List Text}
+    {rest : Option Text} {ints : List Text} {caps : List (Text × Source)}
+    (hp : lambdaParts f c (.pair (.sym k_lambda) (.pair formals body)) false = .ok p)
+    (hpf : Spec.Eval.parseFormals formals = some (ps, rest)) (hps : p.formals = ps ++ rest.toList)
+    (hva : p.isVararg = rest.isSome) (hnd : (ps ++ rest.toList ++ ints).Nodup)
+    (hem : p.ctx.envmap = em3 (ps ++ rest.toList) ints caps)
+    (hcaps : ∀ q ∈ caps, q.2 = .iofEnvironment ∧ inEnv c q.1 = true ∧ ¬ us q.1)
+    (hfb : F3B D.setG f p.ctx (fun x => x ∈ ps ++ rest.toList ++ ints ∨ bound ρ x) (fun x => x ∈ ints) ints body)
+    (hcomp : compileExpr (f + 1) cst c base tail (.pair (.sym k_lambda) (.pair formals body)) = .ok (cst', code))
+    (hpre : cst'.lambdas <+: D.final) {r : Spec.Eval.Rec} {σ σ' : SSt} {w : Val}
+    (hev : evalStep r (.pair (.sym k_lambda) (.pair formals body)) ρ σ = .ok w σ')
+    {W : World} {s : MSt H} (hc : CodeAt2 D c.envmap s.heap σ.store s.ipL base code) (hip : s.ipO = base)
+    (hsrx : D.SRx s.heap σ.store) (her : EnvRep3g ops W s.heap P c s.ep ρ us)
+    (hPP : ∀ h', Ext3 D s.heap σ.store h' σ.store → ∀ e n, P e n → P' h' e n) :
+    ∃ (h' : H) (pp lam cenv : Nat) (bl : List Datum),
+      Steps ops s { s with heap := h', acc := .ptr pp, ipO := s.ipO + code.length } ∧
+      w = .closure ps rest bl ρ ∧ σ' = σ ∧ ops.callee h' (.ptr pp) = .closure lam cenv ∧
+      ClosOK3g D W h' (P' h') lam cenv ps rest bl ρ ∧ (∀ k, ops.envGet s.heap cenv k = none) ∧
+      (∀ e k, e ≠ cenv → ops.envGet h' e k = ops.envGet s.heap e k) ∧
+      (∀ m, ops.globGet h' m = ops.globGet s.heap m) ∧ Ext3 D s.heap σ.store h' σ.store ∧ D.SRx h' σ.store := by
+  obtain ⟨p', st1, bcode, hp', hcb, hl, rfl⟩ := compile_lambda_inv hcomp
+  rw [hp] at hp'; cases hp'
+  obtain ⟨hpb, hpa, hpro⟩ := lambdaParts_inv hp
+  obtain ⟨bl, hbl⟩ := F3B_proper hfb
+  have hne : bl ≠ [] := F3B_nonempty hfb hbl
+  obtain ⟨b0, bs0, rfl⟩ : ∃ b0 bs0, bl = b0 :: bs0 := by
+    cases bl with
+    | nil => exact absurd rfl hne
+    | cons b0 bs0 => exact ⟨b0, bs0, rfl⟩
+  obtain ⟨rfl, hσ⟩ := evalStep_lambda_inv hpf hbl hev
+  have hσ' := hσ.symm
+  subst hσ'
+  subst hip
+  rw [hl] at hpre
+  obtain ⟨hfin, hpre1⟩ := prefix_get hpre
+  obtain ⟨h', pp, lam, cenv, hsteps, hcallee, hok, hfresh, hframe, hglob, hext, hsrx'⟩ :=
+    closure_core0 (P' := P') L hpb hpa hpro hps hva hnd hem hcaps hfb hbl hcb hfin hpre1 hc hsrx her hPP
+  exact ⟨h', pp, lam, cenv, b0 :: bs0, by simpa [finishLambda] using hsteps, rfl, rfl, hcallee, hok, hfresh, hframe,
+    hglob, hext, hsrx'⟩
+
+theorem case3_lambda (L : Laws3 D) {f : Nat} {cst cst' : CState} {c : Ctx} {base : Nat} {tail : Bool}
+    {formals body : Datum} {code : List BC} {ρ : Env} {us : Text → Prop} {p : LambdaParts} {ps : List Text}
+    {rest : Option Text} {ints : List Text} {caps : List (Text × Source)}
+    (hp : lambdaParts f c (.pair (.sym k_lambda) (.pair formals body)) false = .ok p)
+    (hpf : Spec.Eval.parseFormals formals = some (ps, rest)) (hps : p.formals = ps ++ rest.toList)
+    (hva : p.isVararg = rest.isSome) (hnd : (ps ++ rest.toList ++ ints).Nodup)
+    (hem : p.ctx.envmap = em3 (ps ++ rest.toList) ints caps)
+    (hcaps : ∀ q ∈ caps, q.2 = .iofEnvironment ∧ inEnv c q.1 = true ∧ ¬ us q.1)
+    (hfb : F3B D.setG f p.ctx (fun x => x ∈ ps ++ rest.toList ++ ints ∨ bound ρ x) (fun x => x ∈ ints) ints body)
+    (hcomp : compileExpr (f + 1) cst c base tail (.pair (.sym k_lambda) (.pair formals body)) = .ok (cst', code))
+    (hpre : cst'.lambdas <+: D.final) {r : Spec.Eval.Rec} {σ σ' : SSt} {w : Val}
+    (hev : evalStep r (.pair (.sym k_lambda) (.pair formals body)) ρ σ = .ok w σ')
+    {W : World} {s : MSt H} (hc : CodeAt2 D c.envmap s.heap σ.store s.ipL base code) (hip : s.ipO = base)
+    (hi : Inv3 D W s.heap σ) (her : EnvRep3 ops W s.heap c s.ep ρ us) (hw : SWF s.stack) :
+    ∃ W' s', W.le W' ∧ Run3 D W' s code.length σ σ' w s' := by
+  obtain ⟨h', pp, lam, cenv, bl, hsteps, rfl, rfl, hcallee, hok, hfresh, hframe, hglob, hext, hsrx'⟩ :=
+    closure_core (P := InitM ops s.heap) (P' := fun h' => InitM ops h') L hp hpf hps hva hnd hem hcaps hfb hcomp hpre hev hc
+      hip hi.extra her (fun h' x e n y => x.init e n y)
+  refine ⟨W, _, World.le_refl _, ⟨hsteps, rfl, rfl, rfl, rfl, LiveEq.refl _, hw, .clos hcallee hok, ?_, hext⟩⟩
+  refine hi.frame hext hsrx' rfl hglob (fun e n l hW => ⟨?_, rfl⟩)
+  obtain ⟨v, _, h1, _⟩ := hi.vars e n l hW
+  have hne : e ≠ cenv := by
+    intro e0; subst e0
+    rw [hfresh n] at h1; cases h1
+  exact hframe e n hne
 
 end Marwood.Lemmas.CompileCorrect3
